@@ -563,3 +563,4 @@ def replay(ctx, payload):
     ctx.extra["_shrunk"] = {"not-exact", "not-increasing"}   # replay the case as recorded
     eval_cases(ctx, [payload["case"]])
     ctx.extra.pop("_shrunk", None)
+THEOREMS += ['gen_region_tree_init']   # translator tie, second round (Props/C12Gen.lean)
